@@ -7,6 +7,7 @@ import (
 	"os"
 	"os/exec"
 	"sync"
+	"time"
 
 	"gitlab.com/gomidi/midi/v2/drivers"
 )
@@ -24,7 +25,11 @@ type out struct {
 	wr     *io.PipeWriter
 	rd     *io.PipeReader
 	cmd    *exec.Cmd
+	ended  chan struct{} // closed, when the midicat process has ended
 }
+
+// closeTimeout is the time Close gives the midicat process to send what it has received.
+const closeTimeout = 2 * time.Second
 
 func (o *out) fireCmd() error {
 	o.Lock()
@@ -47,10 +52,12 @@ func (o *out) fireCmd() error {
 
 	// when the helper process has ended, nobody reads the pipe any more:
 	// close it, so that Send returns an error instead of blocking forever
-	go func(cmd *exec.Cmd, rd *io.PipeReader, number int) {
+	o.ended = make(chan struct{})
+	go func(cmd *exec.Cmd, rd *io.PipeReader, number int, ended chan struct{}) {
 		cmd.Process.Wait()
 		rd.CloseWithError(fmt.Errorf("midicat process of MIDI out port %v has ended", number))
-	}(o.cmd, o.rd, o.number)
+		close(ended)
+	}(o.cmd, o.rd, o.number, o.ended)
 
 	return err
 }
@@ -106,11 +113,18 @@ func (o *out) Close() (err error) {
 
 	o.Lock()
 	defer o.Unlock()
+	// The end of its input tells the midicat process to finish: it sends what it has
+	// received so far and exits. Killing it right away would lose the messages that
+	// are still on their way to it.
 	o.wr.Close()
-	err = o.cmd.Process.Kill()
-	if errors.Is(err, os.ErrProcessDone) {
-		// the process has ended already, that is fine
-		err = nil
+	select {
+	case <-o.ended:
+	case <-time.After(closeTimeout):
+		err = o.cmd.Process.Kill()
+		if errors.Is(err, os.ErrProcessDone) {
+			// the process has ended already, that is fine
+			err = nil
+		}
 	}
 	o.cmd = nil
 	o.rd.Close()
